@@ -19,6 +19,7 @@ brought up to date (known finding F22, see known_findings.json).
 import LLBuild.Lemmas.Engine.Run
 import LLBuild.Lemmas.Engine.Fingerprint
 import LLBuild.Model.EngineDSL
+import LLBuild.Lemmas.Engine.DSLDet
 
 namespace LLBuild.Engine
 
@@ -48,6 +49,16 @@ theorem C01_value {P : Program} (hP : P.WF) {evs : List Event} {s s' : St} {v : 
         · rename_i hc
           simp [hok.1, hok.2.1, hok.2.2] at hc
         · cases hret
+
+/-- ... and for clients whose requests are monotone with distinct ids (`Program.Det`) that value is
+unique: the build returns EXACTLY the value a brand-new engine computes. -/
+theorem C01_value_unique {P : Program} (hP : P.WF) (hD : P.Det) {evs : List Event} {s s' : St} {v : Val}
+    (hrun : run P {} evs = some s) (hret : step P s (.ret v) = some s')
+    (hnd : s'.pendingDropped = false)
+    (hok : s.cancelled = false ∧ s.cycleSeen = false ∧ s.errSeen = false) :
+    ∃ root, s.target = some root ∧ Clean P s.env root v ∧ ∀ w, Clean P s.env root w → w = v := by
+  obtain ⟨root, ht, hc⟩ := C01_value hP hrun hret hnd hok
+  exact ⟨root, ht, hc, fun w hw => Clean_unique hD hw hc⟩
 
 /-- Every input value handed to a task is the current (clean) value of that input. -/
 theorem C01_inputs {P : Program} (hP : P.WF) {evs : List Event} {s s' : St}
